@@ -240,8 +240,10 @@ def eval_term(t: Term, has_build_subdir: bool) -> T.Tuple[str, ...]:
         elif c[0] == 'get_subdir':
             out.append('<subdir>')
         elif c[0] == 'get_build_subdir':
-            if has_build_subdir:
-                out.append('<build_subdir>')
+            if not has_build_subdir:
+                # an unguarded, possibly empty component: its effect on the joined path is not decided here
+                raise Undecided('build_subdir is joined on a path where it may be empty')
+            out.append('<build_subdir>')
         else:  # pragma: no cover
             raise Undecided(f'unknown path component {c!r}')
     return tuple(out)
